@@ -143,7 +143,7 @@ Definition action_of (x : sexp) : option action :=
   match x with
   | L [A "new"] => Some ANew
   | L [A "set"; o; n; v] =>
-      match n_of o, ident_of n, ident_of v with
+      match n_of o, bytes_of n, bytes_of v with
       | Some o', Some n', Some v' => Some (ASet (N.to_nat o') n' v')
       | _, _, _ => None
       end
